@@ -40,7 +40,7 @@ def manifest(claimed, not_applicable):
             "replay_cmd_template": "./verif replay %s {path}" % p,
             "engine": claimed[p],
             "level_claimed": {"category": lvl, "text": text, "design_ref": ref},
-            "level_note": "Trusted base: g++ 12 / clang 14 with libstdc++ 12 and their sanitizers, rapidcheck, the harness' reference model and instrumented types (validated against std::vector as subject). Verdicts are 'held on everything generated', never absence of violations.",
+            "level_note": "Trusted base: g++ 12 / clang 14 with libstdc++ 12 and their sanitizers, rapidcheck, the harness' reference model and instrumented types (validated by hand-adjudicating every alarm on the unchanged tree and by independently written seeded changes, DESIGN.md §9/§10). Verdicts are 'held on everything generated', never absence of violations.",
             "technique": TECHNIQUE[p],
         })
     return {
